@@ -51,10 +51,10 @@ where
         assert_eq!(self.n() as u32, res.n());
         assert_eq!(self.n() as u32, a.n());
 
-        let a_base2k: usize = a.base2k().as_usize();
-        let res_base2k: usize = res.base2k().as_usize();
         let cnv_offset = a.size().max(b_size);
-        let res_size: usize = (res.size() * res_base2k).div_ceil(a_base2k);
+        // The accumulator of glwe_mul_const has a.size() + b.len() - cnv_offset_hi limbs,
+        // where cnv_offset_hi (derived from the run-time cnv_offset) can be zero.
+        let res_size: usize = a.size() + b_size;
         let lvl_0: usize = self.bytes_of_vec_znx_big(1, res_size);
         let lvl_1_cnv: usize = self.cnv_by_const_apply_tmp_bytes(cnv_offset, res_size, a.size(), b_size);
         let lvl_1_norm: usize = self.vec_znx_big_normalize_tmp_bytes();
